@@ -79,6 +79,18 @@ CLAIMS = {
         "front-layer rule; labelled barriers are taken full-width.",
         COMMON_NOTE + "Modelled, not verified: DAGCircuit.front_layer/remove_op_node.",
         "DESIGN.md §3 C16"),
+    "C20": (
+        "Coq proof (induction over run histories of the parameter-object model) + exact history correspondence with the real front-ends under counting stubs + real-run search (input immutability, per-trajectory generators)",
+        "Machine-checked proof that for every history of noisy/noise-free runs on one shared StrongSimParams/AnalogSimParams/"
+        "WeakSimParams object the next run executes the trajectories and returns the counts a fresh object would, that num_traj and "
+        "shots are preserved, and that weak counts sum to the requested shots. The model is compared exactly (executed back-end "
+        "calls, parameter values afterwards, allocated rows / returned counts) with the real _run_strong_sim/_run_analog/"
+        "_run_weak_sim on enumerated and random histories, serial and parallel (deterministic executor). The search runs real "
+        "simulations: reused vs fresh noise-free results, deep equality of circuit/Hamiltonian/noise model before and after, one "
+        "OS-seeded Generator per trajectory with distinct states. PARTIAL: statistical independence of separately OS-seeded "
+        "generators (also across forked workers) is a property of NumPy/the OS and is not modelled.",
+        COMMON_NOTE,
+        "DESIGN.md §3 C20"),
 }
 
 NOT_YET = "check not built yet in this round (planned in DESIGN.md §3); no claim is made"
